@@ -80,6 +80,8 @@ def lib_exception(e):
         tb = tb.tb_next
     if where is None:
         return None
+    if type(e).__name__ == 'Runaway':
+        return "no exception: the call never returns (busy loop, %s)" % where
     return "%s at %s" % (type(e).__name__, where)
 
 
